@@ -57,10 +57,13 @@ pub struct FaultPlan {
     pub inbound: DeliverFault,
     /// applied to frames whose source is this endpoint (e.g. a node whose replies are lost)
     pub outbound: DeliverFault,
+    /// the sender's `send` call itself takes this long (a congested link): the awaiting
+    /// future can be cancelled while the frame is still being put on the wire
+    pub send_stall: Duration,
 }
 impl Default for FaultPlan {
     fn default() -> Self {
-        FaultPlan { connect: ConnectFault::Accept, inbound: DeliverFault::Deliver, outbound: DeliverFault::Deliver }
+        FaultPlan { connect: ConnectFault::Accept, inbound: DeliverFault::Deliver, outbound: DeliverFault::Deliver, send_stall: Duration::ZERO }
     }
 }
 
@@ -351,6 +354,10 @@ impl VerifLink for Hub {
             if b.len() == 32 {
                 from_tid.copy_from_slice(&b);
             }
+        }
+        let stall = self.inner.lock().by_tid.get(from).map(|e| e.fault.send_stall).unwrap_or(Duration::ZERO);
+        if !stall.is_zero() {
+            tokio::time::sleep(stall).await;
         }
         let (target, delay) = {
             let mut g = self.inner.lock();
